@@ -26,6 +26,10 @@ type Shape struct {
 	Fan    int `json:"fan,omitempty"`    // number of members per import class (2..7)
 	Keys   int `json:"keys,omitempty"`   // keys per map literal
 	Global int `json:"global,omitempty"` // number of globals
+	// SameName: every file of the bundle is added under this one name ("-" = the empty name).
+	SameName string `json:"sameName,omitempty"`
+	// Uniq makes the nameless expression of the xplural/xprint messages unique to the bundle.
+	Uniq int `json:"uniq,omitempty"`
 }
 
 // Case is one concrete bundle to explore.
@@ -38,6 +42,9 @@ type Case struct {
 	// Alts[k] is the same bundle with only the k-th planted error left in
 	// (used to compute the set of independent errors of a multi-error bundle).
 	Alts [][]core.File `json:"alts,omitempty"`
+	// History are bundles the process compiles (once) before it first observes this
+	// case: what a process compiled earlier must not influence a later compile.
+	History [][]core.File `json:"history,omitempty"`
 	// NErr is the number of independent planted errors.
 	NErr int `json:"nerr"`
 	// Collide: some message has placeholders with colliding base names.
@@ -109,8 +116,19 @@ func RenderData() map[string]interface{} {
 	}
 }
 
-func msgSource(kind string) (src string, collide bool) {
+// namelessExpr is a data reference without a usable placeholder name whose
+// text is unique to the bundle (it evaluates to $l[1]).
+func namelessExpr(uniq int) string { return fmt.Sprintf("$l[1 + %d - %d]", uniq, uniq) }
+
+func msgSource(kind string, uniq int) (src string, collide bool) {
 	switch kind {
+	case "xplural":
+		// the same nameless expression is a {plural} subject here and a printed placeholder elsewhere
+		return `{msg desc="xp"}{plural ` + namelessExpr(uniq) + `}{case 1}one row{default}many rows{/plural}{/msg}`, false
+	case "xprint":
+		return `{msg desc="xq"}The row is {` + namelessExpr(uniq) + `}.{/msg}`, false
+	case "xboth":
+		return `{msg desc="xq"}The row is {` + namelessExpr(uniq) + `}.{/msg} {msg desc="xp"}{plural ` + namelessExpr(uniq) + `}{case 1}one row{default}many rows{/plural}{/msg}`, false
 	case "collide":
 		return `{msg desc="m"}{$a.x} and {$b.x} and {$a.x}{/msg}`, true
 	case "collide_sfx":
@@ -156,11 +174,33 @@ func Instantiate(id, origin string, sh Shape, r *rand.Rand) *Case {
 			c.Globals[fmt.Sprintf("app.sub.g%d", g)] = 0.5
 		}
 	}
+	// collection-valued globals (only reachable through AddGlobalsMap): several keys, nested
+	gm := map[string]interface{}{}
+	for k := 0; k < 4+nglob; k++ {
+		gm[fmt.Sprintf("%s%d", []string{"zeta", "alpha", "mid", "beta"}[k%4], k)] = fmt.Sprintf("m%d", k)
+	}
+	gm["inner"] = map[string]interface{}{"x": "ix", "y": true, "w": "iw", "v": []interface{}{"l1", map[string]interface{}{"p": "1", "q": "2", "r": "3"}}}
+	collGlobals := map[string]interface{}{
+		"GM_MAP":   gm,
+		"app.list": []interface{}{"a", map[string]interface{}{"k1": "v1", "k2": "v2", "k3": "v3", "k4": false}, []interface{}{"n", "m"}},
+	}
 	globNames := make([]string, 0, len(c.Globals))
 	for k := range c.Globals {
 		globNames = append(globNames, k)
 	}
 	sort.Strings(globNames)
+	for k, v := range collGlobals {
+		c.Globals[k] = v
+	}
+	fileName := func(i int) string {
+		switch sh.SameName {
+		case "":
+			return fmt.Sprintf("f%d.soy", i+1)
+		case "-":
+			return ""
+		}
+		return sh.SameName
+	}
 
 	type planted struct{ file int }
 	var errs []planted
@@ -171,6 +211,12 @@ func Instantiate(id, origin string, sh Shape, r *rand.Rand) *Case {
 		ns := fmt.Sprintf("n%d", i+1)
 		var out strings.Builder
 		out.WriteString("{namespace " + ns + "}\n\n")
+		// a template whose RENDER fails, at a line that differs from file to file: the error
+		// text (with its line) is an observable and must not depend on the other files
+		for pad := 0; pad < 1+3*i; pad++ {
+			out.WriteString("// pad " + fmt.Sprint(pad) + "\n")
+		}
+		out.WriteString("/** @param? s */\n{template .fail}\nbefore\n{foreach $i in $s}{$i}{/foreach}\n{/template}\n")
 		main := &body{used: map[string]bool{}}
 		main.add("file " + ns + ": ")
 		has := map[int]bool{}
@@ -217,7 +263,8 @@ func Instantiate(id, origin string, sh Shape, r *rand.Rand) *Case {
 		for _, g := range globNames {
 			main.add(" {" + g + "}")
 		}
-		if src, col := msgSource(fs.Msg); src != "" {
+		main.add(" {let $gm: GM_MAP/}{$gm.inner.x}{$gm}{let $gl: app.list/}{$gl}{foreach $e in app.list}{$e}{/foreach}")
+		if src, col := msgSource(fs.Msg, sh.Uniq); src != "" {
 			main.add(" " + src)
 			c.Collide = c.Collide || col
 		}
@@ -227,7 +274,7 @@ func Instantiate(id, origin string, sh Shape, r *rand.Rand) *Case {
 			h := &body{used: map[string]bool{}}
 			h.add(fmt.Sprintf("[%s.h%d {$s}]", ns, k))
 			if k == 1 && fs.Msg != "none" {
-				h.add(` {msg desc="h"}{$s} in {$s.x}{/msg}`)
+				h.add(` {msg desc="h"}{$s} in {$b.x}{/msg}`)
 			}
 			out.WriteString(h.template(fmt.Sprintf(".h%d", k)))
 		}
@@ -250,7 +297,7 @@ func Instantiate(id, origin string, sh Shape, r *rand.Rand) *Case {
 		}
 	}
 	for i := 0; i < sh.NF; i++ {
-		c.Files = append(c.Files, core.File{Name: fmt.Sprintf("f%d.soy", i+1), Text: full[i]})
+		c.Files = append(c.Files, core.File{Name: fileName(i), Text: full[i]})
 	}
 	c.NErr = len(errs)
 	if len(errs) > 1 {
@@ -261,7 +308,7 @@ func Instantiate(id, origin string, sh Shape, r *rand.Rand) *Case {
 				if i == e.file {
 					t = full[i]
 				}
-				alt = append(alt, core.File{Name: fmt.Sprintf("f%d.soy", i+1), Text: t})
+				alt = append(alt, core.File{Name: fileName(i), Text: t})
 			}
 			c.Alts = append(c.Alts, alt)
 		}
